@@ -68,7 +68,7 @@ func main() {
 	a := common.ParseArgs()
 	lib.SilenceLogs()
 	run := common.NewRun(a, "C25", "HV.Storage.C25Fault")
-	run.Meta.Rule = "a case is one workload on one .hyd file with RLIMIT_FSIZE lowered around one or two calls so that the block write of the call stops after j bytes (j in {0, 1, 15, 16, 17, middle of the payload, one byte before the end}) and fails; observed: file operations, result of every call, Load of a copy of the file right after the faulted call and after the next call, Load of the final file; also: strace makes a chosen in-place header rewrite (pwrite64) or fsync fail with EIO, alone or before/after a short block write, or the truncation back after a short write (and its retries); non-trivial = at least one block write really stopped after j > 0 bytes (a partial block reached the file) or a header rewrite / fsync really failed; distinct = distinct (history with observed fault outcomes, observations)"
+	run.Meta.Rule = "a case is one workload (chronicler.Write calls with one treasure or a batch of 2-10 treasures spanning block boundaries, Syncs, Closes) on one .hyd file with RLIMIT_FSIZE lowered around one or two calls so that the block write of the call stops after j bytes (j in {0, 1, 15, 16, 17, middle of the payload, one byte before the end}) and fails; observed: file operations, result of every call, Load of a copy of the file right after the faulted call and after the next call, Load of the final file; also: strace makes a chosen in-place header rewrite (pwrite64) or fsync fail with EIO, alone or before/after a short block write, or the truncation back after a short write (and its retries); non-trivial = at least one block write really stopped after j > 0 bytes (a partial block reached the file) or a header rewrite / fsync really failed; distinct = distinct (history with observed fault outcomes, observations)"
 	rng := common.NewRng(a.Seed, "C25")
 	self, err := os.Executable()
 	if err != nil {
@@ -88,7 +88,7 @@ func main() {
 	}
 	scripts := make([]lib.Script, nScripts)
 	for i := range scripts {
-		scripts[i] = lib.GenScript(rng, i, minW, maxW, 60)
+		scripts[i] = lib.GenScriptB(rng, i, minW, maxW, 60, 30, 10)
 	}
 	// fault-free run of every script in this process: which calls flush a block, how long it is
 	flushes := make([][]flushInfo, nScripts)
